@@ -80,6 +80,16 @@ def run_case(case, work, rec):
         for fd, fsel, comps, single in rng.sample(sels, 2):
             key = (digest, fd, lv, bi, ijk)
             descr = f"[{fd}] at point {pt} (centre of cell {ijk} of box {bi}, level {lv})"
+            if rng.random() < 0.3:
+                # the caller read this box earlier and overwrote the array it got (it is the caller's):
+                # the query must still answer with the stored value
+                try:
+                    mine = pck[fsel][lv][bi]
+                    if isinstance(mine, np.ndarray) and mine.flags.writeable:
+                        mine[...] = -4.2e42
+                        rec.count("box_read_and_overwritten_before_query")
+                except Exception:
+                    pass
             try:
                 got = pck[fsel](*pt)
                 vals = np.atleast_1d(np.asarray(got, dtype=float)).reshape(-1)
